@@ -18,10 +18,19 @@ const M: u64 = 1_000_000;
 /// outputs at m3 so that main and fork have different output counts from height 3 on (the maturity
 /// cutoff is an output-MMR position read from the header `maturity` blocks back *on that fork*).
 pub fn universe_mat(sc: &uni::Scratch, tier: Tier) -> Tree {
+	universe_mat_lifted(sc, tier, 0)
+}
+
+/// `lift` empty blocks p1..pN below m1 (12: version-5 headers throughout); lock heights move with it
+pub fn universe_mat_lifted(sc: &uni::Scratch, tier: Tier, lift: usize) -> Tree {
 	let full = tier == Tier::Thorough;
 	let mut tb = TreeBuilder::new(sc, 31, false);
 	let kc = uni::keychain(31);
-	let m1 = tb.add("m1", None, &BlockSpec::empty(1));
+	let mut base = None;
+	for i in 1..=lift {
+		base = Some(tb.add(&format!("p{}", i), base, &BlockSpec::empty(400 + i as u32)));
+	}
+	let m1 = tb.add("m1", base, &BlockSpec::empty(1));
 	let m2 = tb.add("m2", Some(m1), &BlockSpec::empty(2));
 	// genesis coinbase (key path 0/1/0/0/0) matures at height 3
 	let gtx = {
@@ -46,7 +55,7 @@ pub fn universe_mat(sc: &uni::Scratch, tier: Tier) -> Tree {
 	let m5 = tb.add("m5", Some(m4), &BlockSpec::with(5, vec![uni::spend_coinbase(&kc, 2, REWARD, &[(202, REWARD - M)], 51)]));
 	// height-locked kernel at exactly its lock height 6, spending plain output 200
 	let lock = |h: u64, id: u64, from: (u32, u64), to: u32| {
-		uni::spend_plain(&kc, &[from], &[(to, from.1 - M)], Some(KernelFeatures::HeightLocked { fee: (M as u32).into(), lock_height: h }), id)
+		uni::spend_plain(&kc, &[from], &[(to, from.1 - M)], Some(KernelFeatures::HeightLocked { fee: (M as u32).into(), lock_height: h + lift as u64 }), id)
 	};
 	let m6 = tb.add("m6", Some(m5), &BlockSpec::with(6, vec![lock(6, 52, (200, REWARD / 2), 203)]));
 	let m7 = tb.add("m7", Some(m6), &BlockSpec::with(7, vec![uni::spend_coinbase(&kc, 3, REWARD + M, &[(204, REWARD - M)], 53)])); // one above (3+3=6 < 7)
@@ -158,14 +167,18 @@ fn run(which: &str, tier: Tier, shard: usize, n: usize) -> Report {
 	let mut rep = Report::new();
 	let sc = uni::Scratch::new("c13");
 	let scr = &sc;
-	let w = which.to_string();
-	crate::chainx::guarded(which, &mut rep, move |rep| {
-		let tree = if w == "maturity-locks" { universe_mat(scr, tier) } else { universe_nrd(scr) };
+	let (which, lifts): (&str, Vec<usize>) = if which == "maturity-locks-v5" { ("maturity-locks", vec![12]) } else { (which, vec![0]) };
+	for lift in lifts {
+	let w = if lift == 0 { which.to_string() } else { format!("{}+{}", which, lift) };
+	crate::chainx::guarded(&w.clone(), &mut rep, move |rep| {
+		let tree = if w.starts_with("maturity-locks") { universe_mat_lifted(scr, tier, lift) } else { universe_nrd(scr) };
 		let mut inv = Inv13 { inst: w.clone() };
-		let mut ex = Explorer::new(&tree, scr, Options::NONE, &w);
-		ex.live_check = 2;
+		let is_lift = |i: usize| tree.blocks[i].name.starts_with('p');
+		let prelude: Vec<Ev> = (0..tree.blocks.len()).filter(|i| is_lift(*i)).map(Ev::B).collect();
+		let mut ex = Explorer::with_prelude(&tree, scr, Options::NONE, &w, &prelude);
+		ex.live_check = tier.pick(1, 2);
 		ex.shard = (shard, n);
-		let evs: Vec<Ev> = (0..tree.blocks.len()).filter(|i| tree.valid(*i).is_ok()).map(Ev::B).collect();
+		let evs: Vec<Ev> = (0..tree.blocks.len()).filter(|i| !is_lift(*i) && tree.valid(*i).is_ok()).map(Ev::B).collect();
 		let probes: Vec<Ev> = (0..tree.blocks.len()).filter(|i| tree.valid(*i).is_err()).map(Ev::B).collect();
 		if shard == 0 {
 			let kinds: Vec<String> = (0..tree.blocks.len()).filter_map(|i| tree.valid(i).err().map(|(_, b)| format!("{}:{:?}", tree.blocks[i].name, b))).collect();
@@ -181,6 +194,7 @@ fn run(which: &str, tier: Tier, shard: usize, n: usize) -> Report {
 		ex.explore_snap(&evs, &probes, &mut inv, rep);
 		let _ = std::fs::remove_dir_all(&ex.base);
 	});
+	}
 	let _ = (Bad::Immature, MATURITY);
 	rep
 }
@@ -201,7 +215,7 @@ impl Engine for C13 {
 		}
 	}
 	fn parts(&self, _tier: Tier) -> Vec<(&'static str, usize)> {
-		vec![("maturity-locks", 8), ("nrd", 8)]
+		vec![("maturity-locks", 8), ("maturity-locks-v5", 8), ("nrd", 8)]
 	}
 	fn run_part(&self, part: &str, tier: Tier, shard: usize, n: usize) -> Report {
 		run(part, tier, shard, n)
@@ -210,7 +224,10 @@ impl Engine for C13 {
 		uni::init_thread();
 		let sc = uni::Scratch::new("replay");
 		let inst = case["instance"].as_str().unwrap_or("");
-		let tree = if inst == "maturity-locks" { universe_mat(&sc, Tier::Thorough) } else { universe_nrd(&sc) };
-		crate::chainx::replay_events(&tree, case, Options::NONE, &sc)
+		let lift = if inst.ends_with("+12") { 12 } else { 0 };
+		let tree = if inst.starts_with("maturity-locks") { universe_mat_lifted(&sc, Tier::Thorough, lift) } else { universe_nrd(&sc) };
+		let mut evs: Vec<Value> = (1..=lift).map(|i| json!(format!("B(p{})", i))).collect();
+		evs.extend(case["events"].as_array().cloned().unwrap_or_default());
+		crate::chainx::replay_events(&tree, &json!({"events": evs}), Options::NONE, &sc)
 	}
 }
